@@ -240,9 +240,16 @@ static int genMode(int count, uint64_t seed, const char *outFile, const std::str
             I.des.resize(I.n); I.w.resize(I.n); I.sc.resize(I.n);
             for (int &d : I.des) d = rng.range(0, 6);
             for (int &x : I.w) x = rng.range(1, 3);
-            for (int &x : I.sc) x = rng.range(1, 2);
+            for (int &x : I.sc) x = rng.range(1, 3);
             I.m = rng.range(1, 5);
             for (int k = 0; k < I.m; k++) I.cons.push_back(randCon(rng, I.n, -1, 3, 10, rng.coin()));
+            // re-solves on the same solver after the desired positions moved (scaled blocks have to be split and re-merged)
+            int nops = rng.range(0, 3);
+            for (int k = 0; k < nops; k++) {
+                VInst::Op op; op.kind = 1; op.des.resize(I.n); for (int &d : op.des) d = rng.range(0, 6);
+                I.ops.push_back(op);
+                VInst::Op call; call.kind = 3; I.ops.push_back(call);
+            }
         }
         writeInst(f, I);
     }
